@@ -27,7 +27,7 @@ _ops("C12", "RemoveGapSites RemoveCharacterSites RemoveMajorityCharacterSites Re
 _ops("C13", "Deduplicate Compress")
 _ops("C14", "MaxCharStats Consensus CharStats CharStatsSite CharStatsSeq UniqueCharacters Entropy NbVariableSites "
             "InformativeSites AvgAllelesPerSite Pssm CountDifferences NumGapsUnique NumMutationsUnique NumMutRef "
-            "ListMutRef CountProfile")
+            "ListMutRef CountProfile ProfileOnly")
 _ops("C15", "Mask MaskOccurences MaskUnique")
 _ops("C10", "ShuffleSequences ShuffleSites Swap SimulateRogue BuildBootstrap Sample SampleSeqBag RandSubAlign Mutate "
             "AddGaps Recombine Rarefy")
@@ -36,7 +36,7 @@ _ops("C19", "Query")
 READ_ONLY = set("Clone CloneSeqBag Unalign Sample SampleSeqBag SubAlign SelectSites InverseCoordinates InversePositions "
                 "RefCoordinates RefSites Split Transpose MaxCharStats Consensus CharStats CharStatsSite CharStatsSeq "
                 "UniqueCharacters Entropy NbVariableSites InformativeSites AvgAllelesPerSite Pssm CountDifferences "
-                "NumGapsUnique NumMutationsUnique NumMutRef ListMutRef CountProfile SiteConservation AlphabetInfo BuildBootstrap RandSubAlign Rarefy "
+                "NumGapsUnique NumMutationsUnique NumMutRef ListMutRef CountProfile ProfileOnly SiteConservation AlphabetInfo BuildBootstrap RandSubAlign Rarefy "
                 "DetectAlphabet Identical Query".split())
 
 
